@@ -663,11 +663,20 @@ def run_shard(job: dict[str, Any]) -> dict[str, Any]:
             combos = [(c, k) for c in (("none", None), ("tiny", tiny), ("large", 100_000)) for k in ("off", "zstd")]
             if program["tag"].startswith("gen"):
                 combos = rng.sample(combos, 3)
-            for (capname, capv), comp in combos:
+            # cold call-state cache (capacity 0): every continuation / exchange / cancel turn resolves its call from
+            # the call token, as it does when a turn lands on another worker than the one that served /init
+            combos3 = [(c, k, False) for c, k in combos]
+            if program["tag"].startswith("gen"):
+                combos3 = [(c, k, rng.random() < 0.35) for c, k, _ in combos3]
+            else:
+                combos3 += [(("none", None), "off", True), (("tiny", tiny), "zstd", True)]
+            for (capname, capv), comp, cold in combos3:
                 kw: dict[str, Any] = {}
                 if capv is not None:
                     kw["max_response_bytes"] = capv
-                cfg: dict[str, Any] = {"kind": "http", "app_kwargs": kw, "cap": capname, "comp": comp, "label": f"http:cap={capname}:comp={comp}"}
+                if cold:
+                    kw["call_state_cache_entries"] = 0
+                cfg: dict[str, Any] = {"kind": "http", "app_kwargs": kw, "cap": capname, "comp": comp, "label": f"http:cap={capname}:comp={comp}" + (":cold_cache" if cold else "")}
                 if comp == "zstd":
                     cfg["request_compression"] = 1
                 legs.append(("http", run_http, cfg, rng.choice(["INFO", "INFO", "DEBUG"])))
@@ -764,6 +773,8 @@ def replay(path: str) -> int:
             caps = {"none": [None], "large": [100_000], "tiny": [700, 1200, 2500]}[capname]
             for capv in caps:
                 cfg: dict[str, Any] = {"kind": "http", "app_kwargs": {} if capv is None else {"max_response_bytes": capv}, "cap": capname, "comp": comp, "label": label}
+                if label.endswith(":cold_cache"):
+                    cfg["app_kwargs"]["call_state_cache_entries"] = 0
                 if comp == "zstd":
                     cfg["request_compression"] = 1
                 run_http(chk, cap, program, cfg, level)
